@@ -253,3 +253,35 @@ example : (Binary.xstepFast (fun a b : Int => a == b)
       ({ size := 3, root := ((BNode.nil : BNode Int).put 97 [] 1 0).1.put 97 [98] 2 1 |>.1.put 98 [] 3 2 |>.1 }, Binary.new)
       (.base .all)).map (fun r => match r.2 with | .base (.list l) => l | _ => [])
     = .ok [([97], 1), ([97, 98], 2), ([98], 3)] := by decide
+
+/-! ## the reach of the Patricia theorems in key length
+
+`C06_patricia` and `C06_patricia_collection` are proved under an explicit hypothesis on the histories
+(`PatriciaHistory` / `XPatriciaHistory`, i.e. `Op.smallKeys` for every operation): stored keys (and WithPrefix
+arguments) are **shorter than `lenPos` bits**, `lenPos` being the base of `bitString`'s length positions, regenerated
+from `trie/bitstring.go` on every run (`Generated.trie_lenPos`).  A smaller constant in the source would shrink the set
+of histories those theorems speak about without breaking them (Model and code move together).  This theorem pins the
+reach: `lenPos` is at least `2^30`, so every non-empty key of up to `2^27` bytes (128 MiB) is within the hypothesis.
+Lowering `lenPos` in the source (seeded change C06-t2: `1 << 20`, wrong answers for keys sharing more than 131072
+leading bytes) breaks this obligation. -/
+
+theorem C06_patricia_key_length_reach :
+    2 ^ 30 ≤ BitString.lenPos ∧
+    ∀ {V : Type} (k : Key) (v : V), k ≠ [] → k.length ≤ 2 ^ 27 →
+      (Op.put k v).smallKeys = true ∧ (Op.withPrefix k : Op V).smallKeys = true := by
+  have h : 2 ^ 30 ≤ BitString.lenPos := by decide
+  refine ⟨h, fun k v hk hl => ?_⟩
+  have : 8 * k.length ≤ BitString.lenPos := by omega
+  cases k with
+  | nil => exact absurd rfl hk
+  | cons c cs =>
+    simp only [List.length_cons] at this
+    simp [Op.smallKeys, this]
+
+/-- a key of 200 000 bytes (beyond 2^17 = 131072) is within the hypothesis of `C06_patricia` -/
+example : (Op.put (List.replicate 200000 (97 : UInt8)) (1 : Int)).smallKeys = true :=
+  (C06_patricia_key_length_reach.2 _ _ (fun h => by
+      have := congrArg List.length h
+      rw [List.length_replicate, List.length_nil] at this
+      omega)
+    (by rw [List.length_replicate]; decide)).1
